@@ -13,3 +13,4 @@ print(p,len(keys))
 PY
 done
 bin/trzszlint vars > baseline/vars.json
+bin/trzszlint funcs > baseline/funcs.json
